@@ -17,6 +17,26 @@
 //
 // ops      a<int> = Add, r = Reset, comma separated
 //
+// Round 3 adds the SCALE lines (generators and the compact syntax in scale.go):
+//
+//	S <cap> <words> <oracles> <ops> | <record or run>;...  B=<sorted buffer | #<n>:<digest>>
+//
+// words    as above, and the LAST item may be g<seed>:<n> = the n words splitmix64(seed, 0..n-1)
+//
+//	(n is what the run at hand consumed: rewritten like the oracles)
+//
+// ops      as above, and a<lo>~<hi> = Add lo, lo+1, ... hi-1; z<seed>~<count>~<U>[~<base>] = count Adds of
+//
+//	pseudo-random values in [base, base+U) (a 31-bit linear congruential generator)
+//
+// output   the same record per operation, but a record that follows from the one before it (same
+//
+//	threshold, Count = Len << leading zeros of the threshold, Len moved by -1, 0 or +1, 0 or 1
+//	words drawn) is written as ONE letter a..f = 'a' + 2*(dLen+1) + words, runs of such letters
+//	form one token *<letters>, a letter repeated n >= 3 times is <letter><n>; a final buffer of
+//	more than 64 values is printed as #<n>:<digest of the sorted values>.  The driver decodes
+//	this back into one record per operation and checks every one of them.
+//
 // With -stat it runs the statistical supporting step instead (real NewCounter, fresh entropy).
 package main
 
@@ -46,9 +66,14 @@ type source struct {
 	pos    int
 	gen    func(first bool, p uint64) uint64 // nil: scripted only; p = the threshold before the current Add
 	curP   uint64
-	first  bool                    // the next word is the first one drawn by the current Add
-	inAdd  int                     // words drawn by the current Add
+	first  bool // the next word is the first one drawn by the current Add
+	inAdd  int  // words drawn by the current Add
 	used   []uint64
+	// scale lines: after the script the words splitmix64(gseed, 0), splitmix64(gseed, 1), ...
+	hasG  bool
+	gseed uint64
+	gused int
+	drawn int // words handed out so far (the generated ones are not remembered in used)
 }
 
 func (s *source) Uint64() uint64 {
@@ -56,6 +81,13 @@ func (s *source) Uint64() uint64 {
 	if s.pos < len(s.script) {
 		w = s.script[s.pos]
 		s.pos++
+	} else if s.hasG {
+		w = genWord(s.gseed, uint64(s.gused))
+		s.gused++
+		s.first = false
+		s.inAdd++
+		s.drawn++
+		return w
 	} else if s.gen != nil {
 		w = s.gen(s.first, s.curP)
 		if s.inAdd > 100 {
@@ -68,6 +100,7 @@ func (s *source) Uint64() uint64 {
 	}
 	s.first = false
 	s.inAdd++
+	s.drawn++
 	s.used = append(s.used, w)
 	return w
 }
@@ -85,6 +118,8 @@ func parseOps(s string) []op {
 	for _, f := range strings.Split(s, ",") {
 		if f == "r" {
 			out = append(out, op{})
+		} else if strings.Contains(f, "~") {
+			out = append(out, expandRun(f)...)
 		} else if strings.HasPrefix(f, "a") {
 			n, err := strconv.Atoi(f[1:])
 			if err != nil {
@@ -150,17 +185,23 @@ func sortedBuf(c *distinct.Counter[int]) string {
 
 type info struct {
 	halved, stuck, exceeded, removedSeen, k64, multiword, reset, repeat bool
-	maxLen                                                                int
+	maxLen, passes                                                      int
 }
 
 // runCase drives the real counter.  It returns the oracle field, the output and what happened.
 func runCase(cp int, ops []op, src *source) (oracles, output string, inf info) {
+	return runCaseK(false, cp, ops, src)
+}
+
+// runCaseK: compact = the output syntax of the scale lines.
+func runCaseK(compact bool, cp int, ops []op, src *source) (oracles, output string, inf info) {
 	c := distinct.NewCounterWithSource[int](cp, src)
-	var obs, orc []string
+	var recs []record
+	var orc []string
 	seen := map[int]bool{}
 	failed := ""
 	for i, o := range ops {
-		drawn := len(src.used)
+		drawn := src.drawn
 		if !o.add {
 			c.Reset()
 			inf.reset = true
@@ -176,7 +217,7 @@ func runCase(cp int, ops []op, src *source) (oracles, output string, inf info) {
 			src.first = p0 != math.MaxUint64
 			src.curP = p0
 			src.inAdd = 0
-			nw := len(src.used)
+			nw := src.drawn
 			func() {
 				defer func() {
 					if r := recover(); r != nil {
@@ -198,13 +239,14 @@ func runCase(cp int, ops []op, src *source) (oracles, output string, inf info) {
 			if p0 != math.MaxUint64 {
 				coinWords = 1
 			}
-			if len(src.used)-nw > coinWords || c.VerifP() != p0 {
+			if src.drawn-nw > coinWords || c.VerifP() != p0 {
 				inf.halved = true
+				inf.passes++
 				orc = append(orc, strconv.Itoa(i)+":"+sortedBuf(c))
 				if c.Len() >= l0+1 || (c.Len() == l0 && l0 >= cp && cp > 0) {
 					inf.stuck = true
 				}
-				if len(src.used)-nw > 2 {
+				if src.drawn-nw > 2 {
 					inf.multiword = true
 				}
 			} else if c.Len() < l0 {
@@ -223,14 +265,14 @@ func runCase(cp int, ops []op, src *source) (oracles, output string, inf info) {
 			failed = pk
 			break
 		}
-		obs = append(obs, fmt.Sprintf("%d:%d:%d:%d", c.Len(), cnt, c.VerifP(), len(src.used)-drawn))
+		recs = append(recs, record{c.Len(), cnt, c.VerifP(), src.drawn - drawn})
 	}
-	out := strings.Join(obs, ";")
-	if out == "" {
-		out = "-"
-	}
+	out := fmtRecords(recs, compact)
 	if failed != "" {
 		out += " ERR=" + failed
+	} else if b := c.VerifBuf(); compact && len(b) > digestOver {
+		sort.Ints(b)
+		out += " B=#" + strconv.Itoa(len(b)) + ":" + digest(b)
 	} else {
 		out += " B=" + sortedBuf(c)
 	}
@@ -263,6 +305,10 @@ func (inf info) tags(cp int) (bool, []string) {
 // replay: one input line; oracles are regenerated.
 func replayLine(w *tr.W, in string) {
 	f := strings.Fields(in)
+	if len(f) >= 5 && f[0] == "S" {
+		replayScale(w, f)
+		return
+	}
 	if len(f) < 5 || f[0] != "H" {
 		w.Case(in, "?", false, "bad-input")
 		return
@@ -555,6 +601,34 @@ func stat(args []string) {
 			}
 		}
 	}
+	// round 3: the remaining tiny sizes (a pass in which everything survives has probability 2^-size:
+	// 1/16 .. 1/64 here), distinct counts 100x and 1000x the size for the tiny sizes, and large sizes
+	// around powers of two (passes that refill their random word many times)
+	for _, cp := range []int{4, 5, 6} {
+		for _, d := range []int{cp - 1, cp, cp + 1, 4 * cp, 30 * cp} {
+			for _, rep := range []int{1, 3} {
+				cfgs = append(cfgs, statCfg{cp, d, rep, 30000 * scale})
+			}
+		}
+	}
+	for _, cp := range []int{2, 3, 4} {
+		// (the tolerance formula needs about 10^4 runs at the skewness of these sizes; 1000x: thorough tier only)
+		for _, rep := range []int{1, 3} {
+			cfgs = append(cfgs, statCfg{cp, 100 * cp, rep, 16000 * scale}, statCfg{cp, 400 * cp, rep, 12000 * scale})
+			if tier == "thorough" {
+				cfgs = append(cfgs, statCfg{cp, 1000 * cp, rep, 2000 * scale})
+			}
+		}
+	}
+	for _, cp := range []int{257, 1024} {
+		for _, d := range []int{cp - 1, cp, cp + 1, 3 * cp, 10 * cp} {
+			runs := 2400
+			if cp > 1000 {
+				runs = 1600
+			}
+			cfgs = append(cfgs, statCfg{cp, d, 1 + d%2*2, runs * scale})
+		}
+	}
 	budget := 1e-10 / float64(len(cfgs))
 	type res struct {
 		cfg                 statCfg
@@ -662,7 +736,7 @@ func stat(args []string) {
 	}
 }
 
-const rule = "C19 (round 2: words drawn per operation observed; coin words on the boundary of the threshold; sizes MaxInt64/MinInt64): every stream over 3 values up to length 4 (quick) / 6 (thorough) at sizes 1..3 under 12 word policies; the F8 family (a pass that keeps everything, sizes 2..8); deep thresholds (every Add halves, down to threshold 0); random histories: sizes 1..8 mostly, 9..40, 64..203 (passes that refill), 0/-1; distinct counts below/at/above/far above the size, each value repeated 1..4 times interleaved, Resets; scripted sources = 6 coin-word policies x 8 pass-word policies (all-keep, all-drop, alternating, sparse, dense, random). Observed after every operation: Len, Count, threshold; final buffer. A case is non-trivial when a halving happened or a value was repeated."
+const rule = "C19 (round 2: words drawn per operation observed; coin words on the boundary of the threshold; sizes MaxInt64/MinInt64): every stream over 3 values up to length 4 (quick) / 6 (thorough) at sizes 1..3 under 12 word policies; the F8 family (a pass that keeps everything, sizes 2..8); deep thresholds (every Add halves, down to threshold 0); random histories: sizes 1..8 mostly, 9..40, 64..203 (passes that refill), 0/-1; distinct counts below/at/above/far above the size, each value repeated 1..4 times interleaved, Resets; scripted sources = 6 coin-word policies x 8 pass-word policies (all-keep, all-drop, alternating, sparse, dense, random). Observed after every operation: Len, Count, threshold; final buffer. A case is non-trivial when a halving happened or a value was repeated.  Round 3, scale lines (kind S, compact syntax: runs of Adds, pseudo-random streams, generated words, one letter per record that follows from its predecessor -- the driver decodes them and checks every record): sizes 2..6 and 2^k-1, 2^k, 2^k+1 for k = 3..12; per size streams below the size with many repeats, exactly size-1 distinct values followed by repeats of buffered values (exact, no pass may run), exactly size, 3x/10x/100x/1000x the size (1000x up to size 22, 100x up to size 70; above 1025 one line per size in the quick tier), repeats after saturation and after Reset, saturate-Reset-reuse cycles, the F8 family (all-keep passes) and passes that drop one element per word; uniform generated words or the word policies above."
 
 func main() {
 	if len(os.Args) > 1 && os.Args[1] == "-stat" {
@@ -678,6 +752,7 @@ func main() {
 	} else {
 		g := &gen{o: o, r: tr.NewRand(o.Seed), w: w}
 		g.run()
+		g.scale()
 	}
 	w.Close(o, rule, nil)
 }
